@@ -144,6 +144,8 @@ def table():
     q("t_mass_names")(lambda pp, a, x: (pp.mass("PEM[Oxidation]K"), pp.mass("PEM[Oxidation]K", monoisotopic=False, precision=2),
                                          pp.mass("PEM[U:35]K")))
     q("t_fragment_text")(lambda pp, a, x: pp.fragment("PEM[Oxidation]K", ["b", "y"], 1, return_type="mass"))
+    q("t_add_mods_text")(lambda pp, a, x: pp.add_mods("PEP[1]TIDE", {"nterm": "Acetyl", 0: "Oxidation"}))
+    q("t_get_mods_text")(lambda pp, a, x: pp.get_mods("PEP[1]TIDE"))
     q("t_digest_text")(lambda pp, a, x: pp.digest("PEKTIDERK", "trypsin", missed_cleavages=1))
     # ------------------------------------------------------------------ editors of the shared annotation
     e("pop_labile_mods")(lambda pp, a, x: a.pop_labile_mods())
